@@ -11,7 +11,8 @@ SIZES = dict(quick=dict(L=5, mcL=5), thorough=dict(L=7, mcL=6))
 ALPHA = "abAB1_"
 DICT = ["HTTPServer", "Ab12Cd", "V2", "XmlHttpRequest", "A", "Foo_Bar", "snake_id", "SHOUT", "TLS13", "Item9", "IOError",
         "Xml2Json", "ABc", "X1Y2", "__private", "Trailing_", "Dou__ble", "MiXeD", "ab1CD", "Z", "Ipv4Addr", "HTTP2",
-        "Utf8Str", "B2B", "OAuth2Token", "Sha256Sum", "PascalCase", "aBC", "SCREAMING_SNAKE"]
+        "Utf8Str", "B2B", "OAuth2Token", "Sha256Sum", "PascalCase", "aBC", "SCREAMING_SNAKE",
+        "\u00c5ngstr\u00f6m", "Cr\u00e8me", "\u00c9clair", "\u00c0B", "Z\u00fcrich2", "caf\u00e9Au", "\u00d1and\u00da"]
 
 
 def identifiers(L):
@@ -49,7 +50,7 @@ def canary(grp):
 
 def model(tier):
     cfg = core.workdir("mc_" + PROP) + "/MC_Heck.cfg"
-    consts = dict(MaxLen=SIZES[tier]["mcL"])
+    consts = dict(MaxLen=SIZES[tier]["mcL"] - (1 if tier == "thorough" else 0), Latin1=(tier == "thorough"))
     core.write_cfg(cfg, constants=consts, invariants=["ScannerEqualsRule", "WordsPartition", "StyleShapes", "SnakifyShape"])
     res = core.tlc_mc("MC_Heck.tla", cfg, "mc_" + PROP, workers=6, timeout=7200, xmx="10g")
     for a in ("NextSegment", "Trailing", "SplitAfter", "SplitBefore", "Advance", "Finish"):
